@@ -132,31 +132,37 @@ def singleF (v : RVal D) (afm : AddFieldMeta) (res : RResult D) : Except PlanErr
   | .error e => .error e
   | .ok (fm, fn) => .ok ([fm], mapRows (fun r => (fn r.vals).map fun x => { r with vals := [x] }) res.2)
 
-/-- override_field_metadata_report_filter.go:29-87.  `fixD22 = true` is the repaired variant (custom metadata kept
-when none is given, as the datasource twin does); the code corresponds to `fixD22 = false`. -/
+/-- the new urn of an overridden field: unchanged, or a urn that does not exist yet
+(override_field_metadata_report_filter.go:43-52) -/
+def overrideUrn (fms : List FieldMeta) (orig : FieldMeta) (newUrn : Option String) : Except PlanErr String :=
+  match newUrn with
+  | some u => if u ≠ orig.urn then (if hasField fms u then .error .overrideConflict else .ok u) else .ok orig.urn
+  | none => .ok orig.urn
+
+/-- override_field_metadata_filter.go:52-56 (datasource twin): the given custom metadata, else the original one -/
+def keepCustom (custom : CustomMeta) (orig : FieldMeta) : CustomMeta :=
+  match custom with
+  | some c => some c
+  | none => orig.custom
+
+/-- override_field_metadata_report_filter.go:60-66: the custom metadata is REPLACED; none (or an empty map) given →
+none.  `fixD22 = true` is the repaired variant (kept when none is given, as the datasource twin does). -/
+def overrideCustom (fixD22 : Bool) (custom : CustomMeta) (orig : FieldMeta) : CustomMeta :=
+  if fixD22 then keepCustom custom orig
+  else (match custom with
+    | some c => if c.length > 0 then some c else none
+    | none => none)
+
+/-- override_field_metadata_report_filter.go:29-87.  The code corresponds to `fixD22 = false`. -/
 def overrideRF (fixD22 : Bool) (fieldUrn : String) (newUrn newUnit : Option String) (custom : CustomMeta)
     (res : RResult D) : Except PlanErr (RResult D) :=
   match findField fieldUrn res.1 with
   | none => .error .refNotFound
   | some (orig, idx) =>
-    let urnE : Except PlanErr String :=
-      match newUrn with
-      | some u => if u ≠ orig.urn then (if hasField res.1 u then .error .overrideConflict else .ok u) else .ok orig.urn
-      | none => .ok orig.urn
-    match urnE with
+    match overrideUrn res.1 orig newUrn with
     | .error e => .error e
     | .ok u =>
-      let unit := match newUnit with
-        | some n => n
-        | none => orig.unit
-      let cm : CustomMeta :=
-        if fixD22 then (match custom with
-          | some c => some c
-          | none => orig.custom)
-        else (match custom with
-          | some c => if c.length > 0 then some c else none
-          | none => none)
-      match newFieldMeta u orig.dt orig.required unit cm with
+      match newFieldMeta u orig.dt orig.required (newUnit.getD orig.unit) (overrideCustom fixD22 custom orig) with
       | .error e => .error e
       | .ok fm => .ok (res.1.set idx fm, res.2)
 
@@ -204,16 +210,8 @@ def whereDF (v : DVal D) (res : DResult D) : Except PlanErr (DResult D) :=
 /-- override_field_metadata_filter.go:38-76 -/
 def overrideDF (newUrn newUnit : Option String) (custom : CustomMeta) (res : DResult D) :
     Except PlanErr (DResult D) :=
-  let u := match newUrn with
-    | some u => u
-    | none => res.1.urn
-  let unit := match newUnit with
-    | some n => n
-    | none => res.1.unit
-  let cm := match custom with
-    | some c => some c
-    | none => res.1.custom
-  match newFieldMeta u res.1.dt res.1.required unit cm with
+  match newFieldMeta (newUrn.getD res.1.urn) res.1.dt res.1.required (newUnit.getD res.1.unit)
+      (keepCustom custom res.1) with
   | .error e => .error e
   | .ok fm => .ok (fm, res.2)
 
@@ -323,30 +321,26 @@ def leftOthers (k : Int) : List (Src α) → Option (List (Src α))
     | none => none
     | some s => (leftOthers k ss).map (s :: ·)
 
+/-- the buffered record of a source if its key is `k` -/
+def matchBuf (k : Int) (s : Src α) : Option α :=
+  match s.1 with
+  | some b => if key b == k then some b else none
+  | none => none
+
+/-- one emitted left-join row for the left record `left`, then the rest of the stream (`loop` on the next state) -/
+def leftEmit (loop : List (Src α) → List (Option (α × List (Option α)))) (left : α) (r0' : List (Option α))
+    (others : List (Src α)) : List (Option (α × List (Option α))) :=
+  match leftOthers key (key left) others with
+  | none => [none]
+  | some others' => some (left, others'.map (matchBuf key (key left))) :: loop ((none, r0') :: others')
+
 def leftLoop : Nat → List (Src α) → List (Option (α × List (Option α)))
   | 0, _ => []
   | _, [] => []
-  | fuel + 1, (b0, r0) :: others =>
-    let leftE : Step (α × List (Option α)) :=
-      match b0 with
-      | some a => .next (a, r0)
-      | none =>
-        match r0 with
-        | [] => .done
-        | some a :: t => .next (a, t)
-        | none :: _ => .fail
-    match leftE with
-    | .done => []
-    | .fail => [none]
-    | .next (left, r0') =>
-      match leftOthers key (key left) others with
-      | none => [none]
-      | some others' =>
-        let ms := others'.map fun s =>
-          match s.1 with
-          | some b => if key b == key left then some b else none
-          | none => none
-        some (left, ms) :: leftLoop fuel ((none, r0') :: others')
+  | fuel + 1, (some a, r0) :: others => leftEmit key (leftLoop fuel) a r0 others
+  | _ + 1, (none, []) :: _ => []
+  | fuel + 1, (none, some a :: t) :: others => leftEmit key (leftLoop fuel) a t others
+  | _ + 1, (none, none :: _) :: _ => [none]
 
 /-- `LeftJoinMultipleSortedStreams` -/
 def leftJoin (srcs : List (List (Option α))) : List (Option (α × List (Option α))) :=
@@ -367,6 +361,12 @@ def minKey : List α → Int → Int
   | [], m => m
   | a :: r, m => minKey r (if key a < m then key a else m)
 
+/-- clear the buffer of a source whose buffered key is `k` -/
+def clearMatched (k : Int) (s : Src α) : Src α :=
+  match s.1 with
+  | some b => if key b == k then (none, s.2) else s
+  | none => s
+
 def fullLoop : Nat → List (Src α) → List (Option (List (Option α)))
   | 0, _ => []
   | fuel + 1, st =>
@@ -377,15 +377,7 @@ def fullLoop : Nat → List (Src α) → List (Option (List (Option α)))
       | [] => []
       | h :: hs =>
         let mn := minKey key hs (key h)
-        let vals := st.map fun s =>
-          match s.1 with
-          | some b => if key b == mn then some b else none
-          | none => none
-        let st' := st.map fun s =>
-          match s.1 with
-          | some b => if key b == mn then (none, s.2) else s
-          | none => s
-        some vals :: fullLoop fuel st'
+        some (st.map (matchBuf key mn)) :: fullLoop fuel (st.map (clearMatched key mn))
 
 /-- `FullJoinMultipleSortedStreams` -/
 def fullJoin (srcs : List (List (Option α))) : List (Option (List (Option α))) :=
@@ -450,14 +442,18 @@ def restOfCluster (p start : Int) (last : DRec D) :
   | none :: _ => none
   | some r :: t => if periodStart p r.ts = start then restOfCluster p start r t else some (last, some r, t)
 
+/-- the next pull of the source fails -/
+def headFails {α : Type} : List (Option α) → Bool
+  | none :: _ => true
+  | _ => false
+
 def alignLoop (dt : DataType) (p : Int) : Nat → Option (DRec D) → DRec D → List (Option (DRec D)) → DStream D
   | 0, _, _, _ => []
   | fuel + 1, prev, first, rest =>
     let start := periodStart p first.ts
     -- `FindFirst` yields `first` and pulls one more record
-    match rest with
-    | none :: _ => [none]
-    | _ =>
+    if headFails rest then [none]
+    else
       match alignValue O dt start prev first with
       | none => [none]
       | some out =>
@@ -537,6 +533,12 @@ def joinMetas (jt : JoinType) (n : Nat) : Nat → List (List FieldMeta) → List
 
 def nils (n : Nat) : List (Val D) := List.replicate n .nil
 
+/-- the cells a source contributes to a joined row: its row, or nils when it is absent (join_datasource.go:92-95,110-113) -/
+def padVals (q : Option (Row D) × Nat) : List (Val D) :=
+  match q.1 with
+  | some r => r.vals
+  | none => nils q.2
+
 /-- join_datasource.go:74-135: the joined stream -/
 def joinStreams (jt : JoinType) (results : List (RResult D)) : RStream D :=
   let srcs := results.map (·.2)
@@ -547,18 +549,10 @@ def joinStreams (jt : JoinType) (results : List (RResult D)) : RStream D :=
       { ts := (rows.head?.map (·.ts)).getD 0, vals := (rows.map (·.vals)).flatten }
   | .left =>
     (leftJoin (fun r : Row D => r.ts) srcs).map fun e => e.map fun p =>
-      { ts := p.1.ts,
-        vals := p.1.vals ++ ((p.2.zip (widths.drop 1)).map fun q =>
-          match q.1 with
-          | some r => r.vals
-          | none => nils q.2).flatten }
+      { ts := p.1.ts, vals := p.1.vals ++ ((p.2.zip (widths.drop 1)).map padVals).flatten }
   | .full =>
     (fullJoin (fun r : Row D => r.ts) srcs).map fun e => e.map fun vals =>
-      { ts := ((vals.filterMap id).head?.map (·.ts)).getD 0,
-        vals := ((vals.zip widths).map fun q =>
-          match q.1 with
-          | some r => r.vals
-          | none => nils q.2).flatten }
+      { ts := ((vals.filterMap id).head?.map (·.ts)).getD 0, vals := ((vals.zip widths).map padVals).flatten }
 
 /-- the checks of reduction_datasource.go:96-170 on the executed (aligned) sources -/
 def reductionMeta (rt : RedType) (afm : AddFieldMeta) (metas : List FieldMeta) : Except PlanErr (FieldMeta × DataType) :=
@@ -610,6 +604,13 @@ def reduceStreams (rf : List (Val D) → Option (Val D)) (streams : List (DStrea
   (innerJoin (fun r : DRec D => r.ts) streams).map fun e => e.bind fun recs =>
     (rf (recs.map (·.val))).map fun x => { ts := (recs.head?.map (·.ts)).getD 0, val := x }
 
+/-- "emptyDatasourceValue must be a StaticValue" reduction_datasource.go:63-70: only constants are -/
+def fallbackIsStatic (fb : Option (DVal D)) : Bool :=
+  match fb with
+  | none => true
+  | some (.const _ _) => true
+  | some _ => false
+
 mutual
   /-- `report.DataSource.Execute(ctx, from, to)` -/
   def execR (fixD22 : Bool) (from_ to : Int) : RDs D → Except PlanErr (RResult D)
@@ -651,11 +652,7 @@ mutual
       -- reduction_datasource.go:56-200
       if period ≤ 0 then .error .redNoPeriod
       else
-        let fbOk := match fb with
-          | none => true
-          | some (.const _ _) => true
-          | some _ => false
-        if !fbOk then .error .redFallbackNotStatic
+        if !fallbackIsStatic fb then .error .redFallbackNotStatic
         else match execDLAligned fixD22 from_ to period srcs with
           | .error e => .error e
           | .ok [] => reductionFallback O afm period from_ to fb
